@@ -73,6 +73,10 @@ def generate(seed, tier="quick"):
     if any(f.get("header", {}).get("eol") == "crlf" for f in prog["files"]) and crng.random() < 0.5:
         # a CRLF project whose format-command writes CRLF as well
         fmt = {"kind": "cmd", "stub": "black-crlf", "mode": {"line_length": crng.choice([40, 88])}}
+    prng3 = sub(seed, "flaky-formatter")
+    if fmt["kind"] == "cmd" and fmt.get("stub") in (None, "black") and prng3.random() < 0.3:
+        # some calls of the format-command fail with a non-zero exit status after a part of the answer was written (the part is valid Python)
+        fmt = dict(fmt, exit1_partial_at=sorted(prng3.sample(range(0, 8), prng3.randint(1, 4))))
     clean = sub(seed, "clean").random() < 0.35
     # a file that the formatter would only change at its very edges (no final newline, blank lines at the start / end): not clean, to be left alone
     edge = sub(seed, "edge").choice([None, "no-final-newline", "trailing-blank-lines", "leading-blank-lines"]) if clean else None
